@@ -33,19 +33,23 @@ pub fn form_groups(name: &str, same_operand: bool) -> Vec<Vec<u16>> {
     };
     match (fam, rest) {
         ("u" | "i", "add" | "sub" | "mul" | "div" | "rem" | "and" | "or" | "xor") => with_take(r(8)),
-        ("u", "divrem") => with_take(r(8)),
-        ("i", "divrem") => with_take(r(6)),
-        ("i", "diveuclid") => with_take(r(5)),
-        ("u" | "i", "shl" | "shr") => with_take(r(4)),
-        ("u", "sqrt") => r(2),
+        ("u", "divrem") => with_take(r(16)),
+        ("i", "divrem") => with_take(r(11)),
+        ("i", "diveuclid") => with_take(r(8)),
+        ("u" | "i", "shl" | "shr") => with_take(r(7)),
+        ("u", "sqrt" | "cbrt" | "mulsign") => r(3),
+        ("i", "cbrt") | ("u", "neg") => r(2),
         ("u" | "i", "gcd" | "gcdext") => with_take(r(4)),
         ("i", "neg" | "abs" | "uabs" | "not") => with_take(r(2)),
-        ("i", "mulsign") => r(2),
+        ("i", "mulsign") => r(3),
         ("u", "toi") => r(2),
         ("i", "tou") => r(2),
         ("u" | "i", "static") => r(3),
         ("u", "sum") => vec![vec![0, 1], vec![2, 3]],
+        ("iu", "gcd" | "gcdext") => r(5),
         ("iu", _) => r(7),
+        ("ui", "rem" | "and") => r(7),
+        ("ui", "divrem") => r(6),
         ("ui", _) => r(5),
         ("up", op) | ("ip", op) => {
             let ntypes: u16 = if fam == "up" { 6 } else { 12 };
